@@ -161,6 +161,23 @@ CHECKS["C01"] = {
     "bounds": {"quick": "buffer <= 10239, offset symbolic, stream <= 24 KiB, 2 rounds, 2 reads per handler", "thorough": "3 rounds, 3 reads"},
 }
 
+CHECKS["C05"] = {
+    "harnesses": [
+        H("c05.VH_tcp", {"ROUNDS": 2, "TIMEOUTS": 2, "L": 5000, "NEEDMAX": 6000}, {"ROUNDS": 3, "TIMEOUTS": 4, "L": 5000, "NEEDMAX": 6000}, variant="trickle",
+          covers=["matching timed out", "route handler ran"], validate=False, weight=3),
+        H("c05.VH_tcp", {"ROUNDS": 7, "TIMEOUTS": 1, "L": 12000, "FLOOD": 1}, {"ROUNDS": 8, "TIMEOUTS": 2, "L": 14000, "FLOOD": 1}, variant="flood",
+          covers=["buffer exhausted", "matching timed out", "route handler ran"], validate=False, weight=2),
+        H("c05.VH_server", {"ROUNDS": 2, "TIMEOUTS": 2}, {"ROUNDS": 3, "TIMEOUTS": 4}, covers=["server handled", "route handler ran"], validate=False, weight=2),
+        H("c05.VH_udp_deadline", {}, {}, covers=["udp read timed out"], validate=False),
+        H("c05.VH_udp_data", {}, {}, covers=["udp data delivered"], validate=False),
+    ],
+    "level_text": "bounded model checking on a virtual clock: the wall-clock phase (seconds and nanoseconds) of the start instant is symbolic, elapsed time is a discrete-event clock, package time itself (Add, Sub, Before, Until, Unix...) is executed from its own SSA; the real Compile/prefetch/Server.handle and the UDP packetConn deadline code run against a client that honours the armed deadline exactly like a socket; asserted: one absolute deadline per matching phase, timeout never before and never after start+timeout, buffer <= limit + one chunk, fail closed (no handler, connection closed), deadline cleared for handlers and fallback, UDP deadline neither early nor late",
+    "level_note": "timeouts from {1 ms, 500 ms, 1 s, 3 s}; client delays from {0, timeout/4, >= timeout}; <= 2-3 (trickle) / 7-8 (flood) reads; timers fire 1 ns late (smallest representable latency); Time.UnixNano of a symbolic instant is modelled as an uninterpreted positive value that time.Unix(0,.) maps back (no 64-bit multiplication/division by 10^9 in the solver); not replayable natively (the wall clock cannot be steered), so no path-replay validation for this property; OS scheduling slack is outside",
+    "assumptions": ["virtual clock: symbolic start phase, concrete elapsed time, timers fire 1 ns after their instant", "client read contract: data arriving before the armed deadline is delivered, otherwise os.ErrDeadlineExceeded exactly at the deadline"],
+    "outside": ["operating-system scheduling slack", "matching timeouts other than the four values", "servePacket's goroutines (C09)"],
+    "bounds": {"quick": "2 timeouts x 3 delays x 2 rounds; flood 7 reads of 2048", "thorough": "4 timeouts, 3 rounds; flood 8 reads"},
+}
+
 NOT_APPLICABLE = {
     "C15": "Caddyfile->JSON adaptation and JSON round-trip run through the Caddyfile lexer, encoding/json reflection and Caddy's module loader over an unbounded configuration grammar; this cannot be encoded by a hand-written go/ssa symbolic executor (reflection refused, inputs are programs of a grammar, not bounded bytes/integers)",
 }
